@@ -39,7 +39,8 @@ def with_timeout(seconds, fn, *a, **kw):
 
 
 # ------------------------------------------------------------------------------------------------ generator
-def gen_program(rng, cyclic=True, negation=True, ads=True, evidence=True, max_level=2, negloops=0.0, big=False):
+def gen_program(rng, cyclic=True, negation=True, ads=True, evidence=True, max_level=2, negloops=0.0, big=False,
+                disjunction=False):
     """Typed random program: base facts (probabilistic/deterministic), derived predicates on levels (negation only on
     strictly lower levels => predicate-level stratified; positive recursion allowed within a level), ADs with and
     without bodies, ground and non-ground queries, evidence that holds in a sampled world (consistent by construction,
@@ -89,11 +90,16 @@ def gen_program(rng, cyclic=True, negation=True, ads=True, evidence=True, max_le
                 if len(args) == 2 and rng.random() < 0.15:
                     args = (args[0], args[0])     # repeated variable in a call: p(X,X) vs p(X,Y) are different table entries
                 bound.update(x for x in args if x in VARSET)
-                body.append(("pos", (p, args)))
+                alt = [q for q in cands_pos if preds[q][0] == preds[p][0] and q != p]
+                if disjunction and alt and rng.random() < 0.2:
+                    # body disjunction (p(Args) ; q(Args)): both alternatives bind the same variables
+                    body.append(("or", ((p, args), (rng.choice(alt), args))))
+                else:
+                    body.append(("pos", (p, args)))
         if negation and body and rng.random() < 0.08:
             # contradictory body (f(X), \+f(X)): proofs that the ground formula simplifies to FALSE
             t0, a0 = rng.choice(body)
-            if t0 == "pos" and preds[a0[0]][1] < hl:    # keep predicate-level stratification
+            if t0 == "pos" and preds[a0[0]][1] < hl:    # keep predicate-level stratification (never for "or" literals)
                 body.append(("neg", a0))
         for x in [x for x in hargs if x in VARSET and x not in bound]:
             cs = [p for p in base if preds[p][0] >= 1]
@@ -103,9 +109,9 @@ def gen_program(rng, cyclic=True, negation=True, ads=True, evidence=True, max_le
             args = tuple([x] + [rng.choice(consts) for _ in range(preds[p][0] - 1)])
             body.insert(0, ("pos", (p, args)))
             bound.add(x)
-        body = [b for b in body if b[0] == "pos"] + [b for b in body if b[0] == "neg"]
-        for t, (p, args) in body:
-            if t == "neg" and any(x in VARSET and x not in bound for x in args):
+        body = [b for b in body if b[0] != "neg"] + [b for b in body if b[0] == "neg"]
+        for t, a in body:
+            if t == "neg" and any(x in VARSET and x not in bound for x in a[1]):
                 return None
         return (head, hargs), body
 
@@ -249,7 +255,25 @@ def atom_s(at):
 
 def lit_s(l):
     t, at = l
+    if t == "or":
+        return "(%s ; %s)" % (atom_s(at[0]), atom_s(at[1]))
     return atom_s(at) if t == "pos" else "\\+" + atom_s(at)
+
+
+def expand_or(body):
+    """All alternatives of a body with ("or", (A, B)) literals, as bodies of pos/neg literals."""
+    alts = [[]]
+    for t, a in body:
+        if t == "or":
+            alts = [b + [("pos", x)] for b in alts for x in a]
+        else:
+            alts = [b + [(t, a)] for b in alts]
+    return alts
+
+
+def lit_atoms(l):
+    """The atoms a body literal mentions."""
+    return list(l[1]) if l[0] == "or" else [l[1]]
 
 
 def fr(p):
@@ -315,18 +339,20 @@ def reference(P):
                 heads, body = [(F(s[1]), s[2])], s[3]
             else:
                 heads, body = [(F(p), h) for p, h in s[1]], s[2]
-            vs = vars_of([h for _, h in heads] + [a for _, a in body])
+            vs = vars_of([h for _, h in heads] + [a for l in body for a in lit_atoms(l)])
             for vals in itertools.product(consts, repeat=len(vs)):
                 th = dict(zip(vs, vals))
-                gb = [(t, subst(a, th)) for t, a in body]
+                gbs = [[(t, subst(a, th)) for t, a in alt] for alt in expand_or(body)]
                 if heads[0][0] is None:
-                    rules.append((subst(heads[0][1], th), gb, None))
+                    for gb in gbs:
+                        rules.append((subst(heads[0][1], th), gb, None))
                 else:
                     grp = []
                     for hi, (p, h) in enumerate(heads):
                         cid = ("ad", si, vals, hi)
                         grp.append((p, cid))
-                        rules.append((subst(h, th), gb, cid))
+                        for gb in gbs:
+                            rules.append((subst(h, th), gb, cid))
                     groups.append(grp)
     return rules, groups
 
@@ -363,17 +389,19 @@ def valid_program(P):
         else:
             heads, body = [h for _, h in s[1]], s[2]
         defined.update(h[0] for h in heads)
-        bound = {x for t, (p, args) in body if t == "pos" for x in args if x in VARSET}
+        bound = {x for l in body if l[0] != "neg" for a in lit_atoms(l) for x in a[1] if x in VARSET}
         for h in heads:
             if any(x in VARSET and x not in bound for x in h[1]):
                 return False
-        for t, (p, args) in body:
-            if t == "neg" and any(x in VARSET and x not in bound for x in args):
+        for l in body:
+            if l[0] == "neg" and any(x in VARSET and x not in bound for x in l[1][1]):
+                return False
+            if l[0] == "or" and l[1][0][1] != l[1][1][1]:
                 return False
     called = set()
     for s in P["stmts"]:
         body = s[2] if s[0] in ("rule", "ad") else (s[3] if s[0] == "prule" else [])
-        called.update(a[0] for t, a in body)
+        called.update(a[0] for l in body for a in lit_atoms(l))
     called.update(q[0] for q in P["queries"])
     called.update(a[0] for a, v in P["evidence"])
     return called <= defined
@@ -437,6 +465,65 @@ def poscycle_in_negcycle_scc(P):
                 for x in scc:
                     if x in reach({k: v & scc for k, v in pdep.items() if k in scc}, x):
                         return True
+    return False
+
+
+def negedge_after_poscycle_clause(P):
+    """Finer structural condition of known finding C02-missed-negative-cycle: some ground rule `h :- ..., \\+b` whose negative
+    edge lies on a cycle (b reaches h) is preceded - in source order, among the clauses for the same atom h - by a clause
+    through which h lies on a POSITIVE cycle (a positive body atom of that earlier clause positively reaches h): the engine
+    has already closed that positive cycle on h when the negation is called."""
+    consts = P["consts"]
+    grules = []   # (stmt index, head, body)
+    for si, st in enumerate(P["stmts"]):
+        if st[0] in ("fact", "pf"):
+            grules.append((si, st[-1], []))
+            continue
+        if st[0] == "rule":
+            heads, body = [st[1]], st[2]
+        elif st[0] == "prule":
+            heads, body = [st[2]], st[3]
+        else:
+            heads, body = [h for _, h in st[1]], st[2]
+        vs = vars_of(heads + [a for l in body for a in lit_atoms(l)])
+        for vals in itertools.product(consts, repeat=len(vs)):
+            th = dict(zip(vs, vals))
+            for alt in expand_or(body):
+                gb = [(t, subst(a, th)) for t, a in alt]
+                for h in heads:
+                    grules.append((si, subst(h, th), gb))
+    dep, pdep = {}, {}
+    for si, h, b in grules:
+        dep.setdefault(h, set()).update(a for t, a in b)
+        pdep.setdefault(h, set()).update(a for t, a in b if t == "pos")
+
+    def reach(g, a):
+        seen, st = set(), [a]
+        while st:
+            x = st.pop()
+            for y in g.get(x, ()):
+                if y not in seen:
+                    seen.add(y)
+                    st.append(y)
+        return seen
+    memo, pmemo = {}, {}
+    for si, h, b in grules:
+        for t, a in b:
+            if t != "neg":
+                continue
+            if a not in memo:
+                memo[a] = reach(dep, a)
+            if h not in memo[a]:
+                continue
+            # negative edge on a cycle; look for an earlier clause of h closing a positive cycle on h
+            for sj, h2, b2 in grules:
+                if h2 == h and sj < si:
+                    for t2, a2 in b2:
+                        if t2 == "pos":
+                            if a2 not in pmemo:
+                                pmemo[a2] = reach(pdep, a2) | {a2}
+                            if h in pmemo[a2]:
+                                return True
     return False
 
 
